@@ -27,7 +27,7 @@ META = {
         'cap bit j > i is cleared only after re-testing that it is currently set (or idempotently). NOT decided: the '
         'floating-point geometry itself, agreement across concrete files.'),
     'floors': {'C12.COLUMNS': 3, 'C12.SLICES': 5, 'C12.ELEM-INDEX': 1, 'C12.ACOS-DOT': 1, 'C12.AND-ALL': 7, 'C12.CAP-SIGN': 2,
-               'C12.CAP-BIT': 4, 'C12.DOUBLES': 2},
+               'C12.CAP-BIT': 4, 'C12.DOUBLES': 2, 'C12.DUP-COND': 1, 'C12.DUP-SYM': 2},
 }
 
 MANGLE = 'pydl/pydlutils/mangle.py'
@@ -251,6 +251,7 @@ def check_set_use_caps(ctx, repo):
                   msg='set_use_caps clears bit %s with `%s` without re-testing that it is still set: with three or more mutually '
                       'duplicate caps the bit is subtracted twice and borrows from higher bits' % (jname, src(st)),
                   construct='bit clear ' + src(st))
+        check_dup_cond(ctx, f, fa, st)
         # j ranges over later caps only
         loops = [a for a in ancestors(st) if isinstance(a, ast.For) and isinstance(a.target, ast.Name) and a.target.id == jname]
         later = False
@@ -263,6 +264,86 @@ def check_set_use_caps(ctx, repo):
                 later = True
         ctx.check('C12.DOUBLES', later, f, loops[0] if loops else st, 'the removed duplicate j ranges over caps after i only',
                   msg='the duplicate scan does not restrict j to caps after i', construct='duplicate scan range')
+
+
+def check_dup_cond(ctx, f, fa, st):
+    """C12.DUP-COND / DUP-SYM: the condition under which a later cap is dropped, as a boolean function of three facts."""
+    def classify(e):
+        """'SAME' | 'NEG' | 'NEG1' (one-sided) | 'ALLOW' | 'DIST' | 'USED' | None"""
+        if isinstance(e, ast.Name):
+            if e.id == 'allow_neg_doubles':
+                return 'ALLOW'
+            d = fa.deep(e)
+            if d is not e:
+                return classify(d)
+            return None
+        if isinstance(e, ast.Call) and call_name(e) == 'is_cap_used':
+            return 'USED'
+        if isinstance(e, ast.Compare) and len(e.ops) == 1 and isinstance(e.ops[0], (ast.Lt, ast.LtE)):
+            left, right = e.left, fa.deep(e.comparators[0])
+            rs = src(right)
+            if isinstance(left, ast.Name):
+                left = fa.deep(left)
+            ls = src(left)
+            if '.x[' in ls and ('t2' in src(e.comparators[0]) or '**' in rs or 'tol' in rs):
+                return 'DIST'
+            if '.cm[' in ls and 'tol' in src(e.comparators[0]):
+                absd = isinstance(left, ast.Call) and call_name(left) in ('absolute', 'abs', 'fabs')
+                inner = left.args[0] if absd and left.args else left
+                if isinstance(inner, ast.BinOp) and isinstance(inner.op, ast.Sub):
+                    return 'SAME' if absd else 'SAME1'
+                if isinstance(inner, ast.BinOp) and isinstance(inner.op, ast.Add):
+                    return 'NEG' if absd else 'NEG1'
+        return None
+
+    def ev(e, env, seen):
+        if isinstance(e, ast.BoolOp):
+            vals = [ev(v, env, seen) for v in e.values]
+            return all(vals) if isinstance(e.op, ast.And) else any(vals)
+        if isinstance(e, ast.UnaryOp) and isinstance(e.op, ast.Not):
+            return not ev(e.operand, env, seen)
+        if isinstance(e, ast.Name) and e.id != 'allow_neg_doubles':
+            d = fa.deep(e)
+            if d is not e and isinstance(d, (ast.BoolOp, ast.UnaryOp)):
+                return ev(d, env, seen)
+        k = classify(e)
+        ctx.need(k is not None, 'set_use_caps: condition `%s` of the duplicate test not recognised' % src(e)[:60])
+        seen.add((k, e))
+        k = {'NEG1': 'NEG', 'SAME1': 'SAME'}.get(k, k)
+        return env.get(k, True)
+    tests = []
+    child = st
+    for a in ancestors(st):
+        if isinstance(a, ast.For):
+            if isinstance(a.target, ast.Name) and a.iter is not None and 'ncaps' in src(a.iter) and '+ 1' in src(a.iter):
+                break
+        if isinstance(a, ast.If):
+            inbody = any(child is b or child in list(ast.walk(b)) for b in a.body)
+            tests.append(a.test if inbody else ast.UnaryOp(op=ast.Not(), operand=a.test))
+        child = a
+    ctx.need(tests, 'set_use_caps: no condition guards the duplicate removal')
+    seen = set()
+    wrong = []
+    for same in (False, True):
+        for neg in (False, True):
+            for allow in (False, True):
+                env = {'SAME': same, 'NEG': neg, 'ALLOW': allow, 'DIST': True, 'USED': True}
+                got = all(ev(t, env, seen) for t in tests)
+                want = same or (neg and not allow)
+                if got != want:
+                    wrong.append((same, neg, allow, got))
+    for k, e in sorted(seen, key=lambda p: p[0]):
+        if k in ('SAME', 'NEG', 'SAME1', 'NEG1'):
+            ctx.check('C12.DUP-SYM', k in ('SAME', 'NEG'), f, e, 'the cm test `%s` is two-sided (absolute value)' % src(e)[:60],
+                      msg='the duplicate test `%s` has no absolute value: any two caps on the same axis whose cm values %s to less than tol - not only '
+                          'a cap and its complement - count as duplicates, and the later one is dropped from the use-mask'
+                          % (src(e)[:70], 'sum' if k == 'NEG1' else 'differ'), construct='one-sided duplicate test: ' + src(e)[:70])
+    kinds = {k for k, e in seen}
+    ctx.check('C12.DUP-COND', not wrong and {'ALLOW'} <= kinds and (kinds & {'SAME', 'SAME1'}) and (kinds & {'NEG', 'NEG1'}), f, st,
+              'a later cap is dropped exactly when it is the same cap, or the complement and negative doubles are not allowed',
+              msg='the duplicate condition is wrong for (same cap=%s, complement=%s, allow_neg_doubles=%s): the later cap is %s'
+                  % (wrong[0][0], wrong[0][1], wrong[0][2], 'dropped' if wrong[0][3] else 'kept') if wrong else 'the duplicate condition lacks one of its three facts',
+              construct='duplicate condition: ' + ' and '.join(src(t)[:60] for t in tests)[:160])
 
 
 def check_acos(ctx, repo):
